@@ -163,18 +163,22 @@ func (l *parentedLoader) Discover(c px.Context, predicate func(tn px.TypedName) 
 	found := l.parent.Discover(c, predicate)
 	added := false
 	verifhook.Point("parented.discover")
+	// Names already answered by the parent are skipped by that answer, not by asking the parent again: a name that the
+	// parent gains in between would otherwise be dropped from both lists although it is bound here
+	inParent := make(map[string]bool, len(found))
+	for _, tn := range found {
+		inParent[tn.MapKey()] = true
+	}
 	l.lock.RLock()
 	defer l.lock.RUnlock()
 	for k, e := range l.namedEntries {
-		if e.Value() == nil {
+		if e.Value() == nil || inParent[k] {
 			continue
 		}
 		tn := px.TypedNameFromMapKey(k)
-		if !l.parent.HasEntry(tn) {
-			if predicate(tn) {
-				found = append(found, tn)
-				added = true
-			}
+		if predicate(tn) {
+			found = append(found, tn)
+			added = true
 		}
 	}
 	if added {
